@@ -424,3 +424,80 @@ fn c05_logloss_empty_is_error() {
     assert!(matches!(r2, Err(Error::NotEnoughSamples)));
     kani::cover!(r.is_err());
 }
+
+// EXPERIMENTS (temporary)
+fn cellsm<const N: usize>(m: u8) -> [[u8; N]; N] {
+    let mut c = [[0u8; N]; N];
+    for p in 0..N { for t in 0..N { c[p][t] = cell(); kani::assume(c[p][t] <= m); } }
+    c
+}
+// @unit class=bounded tier=thorough bound="x" timeout=300 fns=x
+#[kani::proof]
+#[kani::unwind(6)]
+#[kani::solver(kissat)]
+#[kani::stub(alloc::fmt::format, fmt_stub)]
+fn c05_exp_f1_cells7k() {
+    let c = cellsm::<2>(7);
+    let cm = cm_of(&c);
+    let (tp, fp, fnn) = (c[0][0] as f32, c[0][1] as f32, c[1][0] as f32);
+    let (p, r) = (tp / (tp + fp), tp / (tp + fnn));
+    assert!(feq(cm.f1_score(), (1.0 + 1.0) * (p * r) / (1.0 * p + r)));
+    kani::cover!(c[0][1] != c[1][0] && c[0][0] > 0);
+}
+// @unit class=bounded tier=thorough bound="x" timeout=300 fns=x
+#[kani::proof]
+#[kani::unwind(6)]
+#[kani::solver(kissat)]
+#[kani::stub(alloc::fmt::format, fmt_stub)]
+#[kani::stub(f32::sqrt, ghost_sqrt32)]
+fn c05_exp_mcc_table3() {
+    let c = cellsm::<2>(3);
+    let cm = cm_of(&c);
+    let (num, a, b) = mcc_terms(&c);
+    let r = cm.mcc();
+    unsafe {
+        assert!(G_SQRT_N == 2);
+        assert!((G_SQRT_A[0] == a as f32 && G_SQRT_A[1] == b as f32) || (G_SQRT_A[0] == b as f32 && G_SQRT_A[1] == a as f32));
+        let (s0, s1) = (G_SQRT_R[0], G_SQRT_R[1]);
+        let n = num as f32;
+        assert!(feq(r, n / s0 / s1) || feq(r, n / s1 / s0) || feq(r, n / (s0 * s1)));
+    }
+    kani::cover!(num > 0 && a > 0 && b > 0 && a != b);
+}
+// @unit class=bounded tier=thorough bound="x" timeout=300 fns=x
+#[kani::proof]
+#[kani::unwind(6)]
+#[kani::solver(kissat)]
+#[kani::stub(alloc::fmt::format, fmt_stub)]
+#[kani::stub(f32::sqrt, ghost_sqrt32)]
+fn c05_exp_mcc_table1() {
+    let c = cellsm::<2>(3);
+    let cm = cm_of(&c);
+    let (num, a, b) = mcc_terms(&c);
+    let r = cm.mcc();
+    unsafe {
+        assert!(G_SQRT_N == 2);
+        assert!((G_SQRT_A[0] == a as f32 && G_SQRT_A[1] == b as f32) || (G_SQRT_A[0] == b as f32 && G_SQRT_A[1] == a as f32));
+        let (s0, s1) = (G_SQRT_R[0], G_SQRT_R[1]);
+        let n = num as f32;
+        assert!(feq(r, n / s0 / s1));
+    }
+    kani::cover!(num > 0 && a > 0 && b > 0 && a != b);
+}
+// @unit class=bounded tier=thorough bound="x" timeout=300 fns=x
+#[kani::proof]
+#[kani::unwind(6)]
+#[kani::solver(kissat)]
+#[kani::stub(alloc::fmt::format, fmt_stub)]
+#[kani::stub(f32::sqrt, ghost_sqrt32)]
+fn c05_exp_mcc_argsonly() {
+    let c = cellsm::<2>(15);
+    let cm = cm_of(&c);
+    let (_num, a, b) = mcc_terms(&c);
+    let _r = cm.mcc();
+    unsafe {
+        assert!(G_SQRT_N == 2);
+        assert!((G_SQRT_A[0] == a as f32 && G_SQRT_A[1] == b as f32) || (G_SQRT_A[0] == b as f32 && G_SQRT_A[1] == a as f32));
+    }
+    kani::cover!(a > 0 && b > 0 && a != b);
+}
